@@ -325,6 +325,23 @@ def run_case(case):
         probe.attempt(nu.unique, arr)
         probe.attempt(nu.unique, arr, values=True)
     else:
-        flag = rng.integers(0, 4, size=n) if rng.random() < .7 else rng.normal(size=n)
+        fk = int(rng.integers(0, 8))
+        if fk == 0:
+            flag = rng.normal(size=n)
+        elif fk in (1, 2):
+            # unsigned flags incl. zero and the type maximum (negation / subtraction tricks wrap around)
+            dt = str(rng.choice(["u1", "u2", "u4", "u8"]))
+            flag = rng.choice(np.array([0, 0, 1, 2, 3, np.iinfo(dt).max], dtype=dt), size=n)
+        elif fk == 3:
+            # signed flags incl. the type minimum and maximum
+            dt = str(rng.choice(["i1", "i2", "i8"]))
+            ii = np.iinfo(dt)
+            flag = rng.choice(np.array([ii.min, ii.min + 1, -3, 0, 2, ii.max], dtype=dt), size=n)
+        elif fk == 4:
+            flag = rng.choice(np.array([-np.inf, -1.5, 0.0, -0.0, 2.5, np.inf]), size=n)
+        elif fk == 5:
+            flag = rng.integers(0, 2, size=n).astype(bool)
+        else:
+            flag = rng.integers(0, 4, size=n)
         probe.attempt(nu.rem_dup, arr, flag)
         probe.attempt(nu.rem_dup, arr, flag, values=True)
